@@ -191,10 +191,10 @@ func (x *Exec) constGlobalVal(g *ssa.Global) (Val, bool) {
 			c.funDecls["const:"+name] = true
 			c.declare(name, "Int")
 			// distinct, non-nil, allocated before the function started
-			c.assert = append(c.assert, and(sx("<", "0", name), sx("<=", name, c.regionInit("$alloc", 0))))
+			c.addAssert(and(sx("<", "0", name), sx("<=", name, c.regionInit("$alloc", 0))), -1)
 			for k := range c.funDecls {
 				if len(k) > 11 && k[:11] == "const:gobj_" && k[6:] != name {
-					c.assert = append(c.assert, not(eq(k[6:], name)))
+					c.addAssert(not(eq(k[6:], name)), -1)
 				}
 			}
 		}
@@ -212,7 +212,7 @@ func (x *Exec) constGlobalVal(g *ssa.Global) (Val, bool) {
 			c.funDecls["const:"+name] = true
 			c.declare(name, c.sortOf(elem))
 			a0 := c.regionInit("$alloc", 0)
-			c.assert = append(c.assert, c.wfAt(elem, name, a0))
+			c.addAssert(c.wfAt(elem, name, a0), -1)
 			vars := map[string]Val{}
 			for i, pr := range callee.Params {
 				if av, ok := x.evalSimple(info.call.Call.Args[i]); ok {
@@ -226,7 +226,7 @@ func (x *Exec) constGlobalVal(g *ssa.Global) (Val, bool) {
 				if strings.Contains(en.Text, "old(") {
 					continue
 				}
-				c.assert = append(c.assert, x.evalClause(env, en))
+				c.addAssert(x.evalClause(env, en), -1)
 			}
 			fc.Used = true
 			c.note("package-level variable " + g.Name() + " is initialised once by " + x.p.funcKey(callee) + "(...) and satisfies its postcondition")
